@@ -43,6 +43,8 @@ MODES = {
     # an exception hook installed by the application before pysnark, which itself fails
     "exception_with_failing_custom_excepthook": ("raise ValueError('boom')", False),
     "autoprove_off": ("import pysnark.runtime as _r\n_r.autoprove = False", None),
+    # the manual workflow of the libsnark examples (an operation is named, proving is driven by hand) on whatever backend is in effect
+    "autoprove_off_operation_named": ("import pysnark.runtime as _r\n_r.autoprove = False\n_r.operation = 'prove'\n_r.namevals = {'x': 3}", None),
 }
 BACKENDS = {
     "snarkjs": ["witness.wtns", "circuit.r1cs"],
@@ -86,7 +88,7 @@ def make_script(stmts, k, mode, control=False, observe=None):
     ins = MODES[mode][0]
     if control:
         lines = ["import sys", PRE_IMPORT.get(mode, "")]
-        if ins and mode != "autoprove_off":
+        if ins and MODES[mode][1] is not None:
             lines.append(ins)
         return "\n".join(lines) + "\n"
     src = PRELUDE + (OBSERVE_PRE if observe else "") + PRE_IMPORT.get(mode, "") + IMPORTS + (OBSERVE[observe] if observe else "") + "\n".join(body) + "\n"
@@ -268,7 +270,7 @@ def classify_fail(mode):
 
 
 def classify_hook(mode, err):
-    if mode == "autoprove_off" and "process_snark" in err:
+    if mode.startswith("autoprove_off") and "process_snark" in err:
         return "exit-hook-fails-with-autoprove-off"
     return "exit-hook-failed:" + mode
 
